@@ -821,7 +821,12 @@ pub(crate) fn evaluate(w: &World, facts: &[ConnFacts], shared_end: bool, out: &m
                         if *cancelled {
                             out.counters.inline_saw_cancel += 1;
                         } else {
-                            bump(&mut out.counters.notes, "inline handler did not see the embedder cancellation");
+                            // the embedder's cancellation is what ends this connection and the handler is
+                            // still running (it is woken only after the cancel): it must observe it
+                            fail(
+                                format!("C15:running-inline-handler-not-cancelled:{cause}"),
+                                "an inline context handler that was still running when the embedder cancelled the connection read ctx.is_cancelled() == false afterwards".into(),
+                            );
                         }
                     }
                 }
